@@ -38,6 +38,14 @@ fn buffered_tags(ids: &[u64]) -> Vec<DynTag> {
 }
 
 fn run_async(bytes: &[u8], chunks: Vec<usize>, tail: usize, pending_every: usize, buffered: &[u64]) -> AsyncRun {
+    run_async_opt(bytes, chunks, tail, pending_every, buffered, false)
+}
+
+/// `abandon`: a consumer that never waits — every `next()` future is polled once (`now_or_never`) and dropped when the
+/// source answered Pending (what `select!` or a timeout does), then `next()` is called afresh. The scripted source hands
+/// out nothing with a Pending, so the bytes and the read sequence are those of the patient consumer.
+fn run_async_opt(bytes: &[u8], chunks: Vec<usize>, tail: usize, pending_every: usize, buffered: &[u64], abandon: bool) -> AsyncRun {
+    use futures::FutureExt;
     let src = ScriptedAsyncRead::new(ScriptedRead::new(bytes.to_vec()).with_chunks(chunks, tail), pending_every);
     let tags = buffered_tags(buffered);
     let mut it: TagIteratorAsync<ScriptedAsyncRead, DynTag> = TagIteratorAsync::new(src, &tags);
@@ -45,47 +53,58 @@ fn run_async(bytes: &[u8], chunks: Vec<usize>, tail: usize, pending_every: usize
     let mut end = Ev::None;
     let cap = 4 * bytes.len() + 64;
     let mut none_sticky = true;
+    let mut abandoned = 0usize;
+    crate::io::ASYNC_READ_LOG.with(|l| l.borrow_mut().clear());
     let r = guard(1 << 26, || {
-        futures::executor::block_on(async {
-            loop {
-                match it.next().await {
-                    None => break,
-                    Some(Ok(t)) => {
-                        items.push((Item::from_tag(&t), it.last_emitted_tag_offset()));
-                        if items.len() > cap {
-                            end = Ev::Caught(Caught::Hang("more items than 4*len+64".into()));
-                            return;
-                        }
-                    }
-                    Some(Err(e)) => {
-                        end = Ev::Err(ErrRec::from(&e));
+        loop {
+            let step = if abandon { it.next().now_or_never() } else { Some(futures::executor::block_on(it.next())) };
+            match step {
+                None => {
+                    abandoned += 1;
+                    if abandoned > 8 * cap {
+                        end = Ev::Caught(Caught::Hang("more abandoned polls than 8*(4*len+64)".into()));
                         return;
                     }
                 }
-            }
-            for _ in 0..3 {
-                if it.next().await.is_some() {
-                    none_sticky = false;
+                Some(None) => break,
+                Some(Some(Ok(t))) => {
+                    items.push((Item::from_tag(&t), it.last_emitted_tag_offset()));
+                    if items.len() > cap {
+                        end = Ev::Caught(Caught::Hang("more items than 4*len+64".into()));
+                        return;
+                    }
+                }
+                Some(Some(Err(e))) => {
+                    end = Ev::Err(ErrRec::from(&e));
+                    return;
                 }
             }
-        })
+        }
+        for _ in 0..3 {
+            if futures::executor::block_on(it.next()).is_some() {
+                none_sticky = false;
+            }
+        }
     });
     if let Err(cg) = r {
         end = Ev::Caught(cg);
     }
-    // the source is owned by `it`; recover the read log through a second pass is not possible, so log lives in a cell:
-    // (ScriptedAsyncRead is moved into the iterator; we re-derive the reads from the deterministic schedule instead)
-    AsyncRun { items, end, reads: vec![], none_sticky, pendings: 0 }
+    // what the adapter really asked for and got, read by read (its transfer buffer is its own business: 64 KiB today)
+    let reads = crate::io::ASYNC_READ_LOG.with(|l| std::mem::take(&mut *l.borrow_mut()));
+    AsyncRun { items, end, reads, none_sticky, pendings: abandoned }
 }
 
 /// bytes delivered by successive reads for a schedule (deterministic replica of ScriptedRead's chunking, 64 KiB transfer buffer)
 fn schedule_reads(len: usize, chunks: &[usize], tail: usize) -> Vec<usize> {
+    schedule_reads_from(len, chunks, tail, 0, 0, 65536)
+}
+
+/// the same, continuing behind `pos` bytes delivered by `i` reads, with at most `cap` bytes per read
+fn schedule_reads_from(len: usize, chunks: &[usize], tail: usize, mut pos: usize, mut i: usize, cap: usize) -> Vec<usize> {
     let mut v = Vec::new();
-    let mut pos = 0;
-    let mut i = 0;
     while pos < len {
         let want = if i < chunks.len() { chunks[i] } else { tail };
-        let n = want.min(65536).min(len - pos).max(1.min(len - pos));
+        let n = want.min(cap).min(len - pos).max(1.min(len - pos));
         v.push(n);
         pos += n;
         i += 1;
@@ -392,19 +411,40 @@ fn run(c: &mut Case) {
             all_parts.push(chunks);
         }
     }
-    let mut jobs: Vec<(&'static str, Vec<usize>, usize, usize)> = Vec::new();
+    let mut jobs: Vec<(&'static str, Vec<usize>, usize, usize, bool)> = Vec::new();
     for (name, ch, tail) in scheds {
         let pe = *c.rng.pick(&[0usize, 0, 2, 3, 5]);
-        jobs.push((name, ch, tail, pe));
+        jobs.push((name, ch, tail, pe, pe > 0 && c.rng.chance(1, 2)));
     }
     for ch in all_parts {
-        jobs.push(("partition", ch, usize::MAX, 0));
+        let pe = *c.rng.pick(&[0usize, 0, 0, 2, 3]);
+        jobs.push(("partition", ch, usize::MAX, pe, pe > 0));
     }
     let mut starved_reported = false;
-    for (name, chunks, tail, pending_every) in jobs {
-        let reads = schedule_reads(len, &chunks, tail);
-        let mut ar = run_async(&bytes, chunks.clone(), tail, pending_every, &buffered);
-        ar.reads = reads.clone();
+    for (name, chunks, tail, pending_every, abandon) in jobs {
+        let nominal_reads = schedule_reads(len, &chunks, tail);
+        let ar = run_async_opt(&bytes, chunks.clone(), tail, pending_every, &buffered, abandon);
+        // the deliveries as they really happened (trailing end-of-stream answers dropped); the nominal 64 KiB schedule
+        // is only kept for the evidence classes below
+        let mut reads: Vec<usize> = ar.reads.clone();
+        while reads.last() == Some(&0) {
+            reads.pop();
+        }
+        // a run that ended early (error, premature None) stopped reading: the rest is delivered as the source would have
+        // delivered it, so that "the producer was not done" is never concluded from the adapter's own silence
+        let got: usize = reads.iter().sum();
+        if got < len {
+            let cap = reads.iter().copied().max().unwrap_or(0).max(65536);
+            let n_reads = reads.len();
+            reads.extend(schedule_reads_from(len, &chunks, tail, got, n_reads, cap));
+        }
+        if reads != nominal_reads {
+            c.count("schedules_where_actual_reads_differ_from_nominal_64k");
+        }
+        if abandon {
+            c.count("schedules_with_abandoned_polls");
+            c.add("abandoned_polls", ar.pendings as u64);
+        }
         c.eval();
         c.count("schedules_compared");
         // starved? (the inner iterator would see end-of-file before the producer has delivered everything)
@@ -421,6 +461,7 @@ fn run(c: &mut Case) {
                 .set("schedule", J::s(name))
                 .set("reads_bytes", J::Arr(reads.iter().take(40).map(|x| J::u(*x)).collect()))
                 .set("pending_every", J::u(pending_every))
+                .set("pending_polls_abandoned", J::Bool(abandon))
                 .set("producer_starved", J::Bool(starved))
                 .set("blocking", base.to_json(40))
                 .set("async_items", J::Arr(ar.items.iter().take(40).map(|(i, o)| J::s(format!("{}@{}", i.short(), o))).collect()))
@@ -464,6 +505,7 @@ fn run(c: &mut Case) {
         let src = ScriptedAsyncRead::new(ScriptedRead::new(bytes.clone()), *c.rng.pick(&[0usize, 2]));
         let tags = buffered_tags(&buffered);
         let it: TagIteratorAsync<ScriptedAsyncRead, DynTag> = TagIteratorAsync::new(src, &tags);
+        crate::io::ASYNC_READ_LOG.with(|l| l.borrow_mut().clear());
         let r = guard(1 << 26, || {
             futures::executor::block_on(async {
                 let s = it.into_stream();
@@ -490,8 +532,22 @@ fn run(c: &mut Case) {
                     Ev::Err(e) => Some(e.clone()),
                     _ => None,
                 };
-                // whole input delivered in the first read: never starved unless len > 64 KiB
-                if len <= 65536 && (vals != base.values() || err != base_err) {
+                // everything is on offer from the first read on; whether that starves the adapter depends on how much it
+                // takes per read (its transfer buffer is its own business), so the deliveries it really got are replayed
+                let mut reads: Vec<usize> = crate::io::ASYNC_READ_LOG.with(|l| std::mem::take(&mut *l.borrow_mut()));
+                while reads.last() == Some(&0) {
+                    reads.pop();
+                }
+                let got: usize = reads.iter().sum();
+                if got < len {
+                    let cap = reads.iter().copied().max().unwrap_or(0).max(65536);
+                    let n_reads = reads.len();
+                    reads.extend(schedule_reads_from(len, &[], usize::MAX, got, n_reads, cap));
+                }
+                let differs = vals != base.values() || err != base_err;
+                if differs && starved_by_simulation(&bytes, &reads, &buffered) {
+                    c.count("stream_adapter_starved_divergences");
+                } else if differs {
                     c.violation(
                         format!("C20/stream-adapter-differs/{}", if buffered.is_empty() { "flat" } else { "buffered" }),
                         "items collected from into_stream() differ from the blocking iterator",
